@@ -5,10 +5,16 @@ from .core import SInt, SBool, SFloat, Unsupported, cur, zint, concretize, is_sy
 from . import models
 from .models import CALL_MODELS, any_sym, SBytes
 
+METHOD_MODELS = {}
+
 
 def call(f, *args, **kwargs):
     if Ctx.current is not None:
         m = CALL_MODELS.get(id(f))
+        if m is None:
+            owner = getattr(f, "__self__", None)
+            if owner is not None and METHOD_MODELS:
+                m = METHOD_MODELS.get((id(owner), getattr(f, "__name__", "")))
         if m is not None and (any_sym(args, kwargs) or getattr(m, "_always", False)):
             return m(*args, **kwargs)
         # bound methods of builtin containers with symbolic arguments
